@@ -142,6 +142,52 @@ SURFACE_SPECIES
 DEFS = RATES + CDMUSIC
 
 
+# minimised past failures, run first in every tier (found by seed 6, case 39)
+CORPUS = [("corpus:model-reuse", """SOLUTION 1 case 39
+ temp 10
+ pH 8.79106
+ pe -0.249658
+ units mmol/kgw
+ Na 280.676
+ Cl 280.676 charge
+ Ca 6.06407
+ C(4) 5.5675
+ Mg 7.5954
+ S(6) 3.83491
+ K 3.01278
+ Fe(2) 0.0964831
+EXCHANGE 1
+ X 0.161199
+ -pitzer_exchange_gammas true
+ -equilibrate 1
+SURFACE 1
+ Hfo_w 0.00399177 654.284 1.05594
+ Hfo_s 6.55419e-06
+ -donnan 1e-08
+ -equilibrate 1
+EQUILIBRIUM_PHASES 1
+ Calcite 0 0
+ CO2(g) -2.82261 10
+GAS_PHASE 1
+ -fixed_volume
+ -volume 4.31224
+ -temperature 40
+ CO2(g) 0.0862822
+ N2(g) 0.128593
+ CH4(g) 0.0056422
+REACTION 1
+ NaCl 1.40456
+ 4.02684 mmol in 4 steps
+REACTION_TEMPERATURE 8
+ 25 60 in 3 steps
+END
+RUN_CELLS
+ -cells 1
+ -time_step 1
+END
+""")]
+
+
 def fmt(x):
     return "%.6g" % x
 
@@ -363,7 +409,7 @@ def followup(dump, cells=None, user=97):
         if len(cells) > 8:
             step = len(cells) / 8.0
             cells = [cells[int(i * step)] for i in range(8)]
-    L = ["KNOBS", " -convergence_tolerance 1e-12", "PRINT", " -selected_output true", "SELECTED_OUTPUT %d" % user, " -reset false", " -high_precision true",
+    L = ["PRINT", " -selected_output true", "SELECTED_OUTPUT %d" % user, " -reset false", " -high_precision true",
          " -solution true", " -ph true", " -temperature true", " -alkalinity true", " -ionic_strength true",
          " -water true", " -charge_balance true"]
     if els:
@@ -500,6 +546,11 @@ def text_diff(d1, d2):
                 p == q or (NUM_RE.match(p) and NUM_RE.match(q) and close(float(p), float(q), 1e-12, 1e-300)) for p, q in zip(tx, ty))
             out.append((kw, opt, x, y, tiny))
     return out
+
+
+def nonconvergence(err):
+    e = err or ""
+    return ("has not converged" in e) or ("Numerical method failed" in e) or ("Maximum iterations" in e)
 
 
 def err_signature(err):
@@ -723,6 +774,7 @@ def run_round_trip(ctx, cases, static_defects, kw2cls, timeout_each=25):
 
     model_todo = []
     pending = []
+    history = []
     for c in live:
         stats["cases"] += 1
         ents = split_entities(c.d1)
@@ -854,9 +906,7 @@ def run_round_trip(ctx, cases, static_defects, kw2cls, timeout_each=25):
                 if c.bin_copy is not None:
                     d = first_diff(c.bin_orig, c.bin_copy, tol=100 * TOL)
                     if d:
-                        add(c, "followup:bin:%s" % (d if isinstance(d, str) else d[1]),
-                            "follow-up RUN_CELLS differs grossly between the original and its exact in-memory copy: %s" %
-                            (d if isinstance(d, str) else "row %d column %s: %r vs %r" % d), str(d), "relative difference <= 1e-5", {"followup": c.follow})
+                        history.append((c, d))
                     else:
                         rn = rel_noise(c.bin_orig, c.bin_copy)
                         stats["max_rel_noise_exact_copy"] = max(stats.get("max_rel_noise_exact_copy", 0.0), rn)
@@ -876,6 +926,9 @@ def run_round_trip(ctx, cases, static_defects, kw2cls, timeout_each=25):
                 add(c, "followup:%s:no-return" % label, "follow-up RUN_CELLS on the restored state does not return", "", "same results")
                 continue
             to = vlib.table_dicts(o["tables"]["97"])
+            if r.get("rc") != 0 and nonconvergence(r.get("err")) and getattr(c, "text_restored", False):
+                stats["followup_nonconvergence_on_restored"] = stats.get("followup_nonconvergence_on_restored", 0) + 1
+                continue            # the solver gives up from a start point that differs in the 15th digit: inconclusive for C10
             if r.get("rc") != 0 or "97" not in (r.get("tables") or {}):
                 add(c, "followup:%s:error:%s" % (label, err_signature(r.get("err"))), "follow-up RUN_CELLS fails on the restored state but not on the original",
                     (r.get("err") or "")[:600], "same results", {"followup": c.follow})
@@ -902,7 +955,9 @@ def run_round_trip(ctx, cases, static_defects, kw2cls, timeout_each=25):
             mo, mr = B.get(c.id + "/Mo") or {}, B.get(c.id + "/Mr") or {}
             if mo.get("rc") == 0 and "96" in (mo.get("tables") or {}) and not mo.get("timeout"):
                 stats["modify"] += 1
-                if mr.get("rc") != 0 or "96" not in (mr.get("tables") or {}):
+                if mr.get("rc") != 0 and nonconvergence(mr.get("err")):
+                    stats["followup_nonconvergence_on_restored"] = stats.get("followup_nonconvergence_on_restored", 0) + 1
+                elif mr.get("rc") != 0 or "96" not in (mr.get("tables") or {}):
                     add(c, "modify:error:%s" % err_signature(mr.get("err")), "SOLUTION_MODIFY restore path raises errors", (mr.get("err") or "")[:600], "no errors",
                         {"modify": c.mod[0] + "END\n" + c.mod[1]})
                 else:
@@ -918,6 +973,30 @@ def run_round_trip(ctx, cases, static_defects, kw2cls, timeout_each=25):
                                         "text": lambda nd, c=c, fo96=fo96: c.text + "\nEND\n" + c.mod[0] + "END\n" + truncate_digits(c.mod[1], nd) + "END\n" + fo96,
                                         "what": "restoring totals/total_h/total_o/cb through SOLUTION_MODIFY gives different follow-up results",
                                         "key": "modify:%s" % d[1], "extra": {"modify": c.mod[0] + "END\n" + c.mod[1]}})
+    # the original instance and an exact in-memory copy of its state in a fresh instance give grossly different follow-up
+    # results: does the instance's own history matter?  (an unrelated simulation between history and follow-up makes the
+    # engine rebuild its model instead of re-using the previous one)
+    if history:
+        dummy = "SOLUTION 32001\n Na 1\n Cl 1\nEND\nDELETE\n -solution 32001\nEND\n"
+        H = run_jobs([job("hist%d" % k, c.db, c.text + "\nEND\n" + dummy + c.follow) for k, (c, d) in enumerate(history)], timeout_each, workers)
+        for k, (c, d) in enumerate(history):
+            desc = d if isinstance(d, str) else "row %d column %s: %r (original instance) vs %r (exact copy in a fresh instance)" % d
+            r = H.get("hist%d" % k) or {}
+            agrees = False
+            try:
+                agrees = first_diff(vlib.table_dicts(r["tables"]["97"]), c.bin_copy, tol=100 * TOL) is None
+            except Exception:
+                pass
+            if agrees:
+                add(c, "instance:model-reuse",
+                    "the same reactant state gives different results in the instance that computed it than in any other instance: after an "
+                    "unrelated simulation the original instance agrees with the exact copy, so the engine's re-use of the previous model "
+                    "(same_model/quick_setup) carries hidden state: " + desc,
+                    {"cell": desc, "with_unrelated_simulation_in_between": "agrees with the exact copy"}, "relative difference <= 1e-7", {"followup": c.follow})
+            else:
+                add(c, "followup:bin:%s" % (d if isinstance(d, str) else d[1]),
+                    "follow-up RUN_CELLS differs grossly between the original and its exact in-memory copy: " + desc, str(d),
+                    "relative difference <= 1e-5", {"followup": c.follow})
     # numeric follow-up differences: is the 14-significant-digit text of total_h / total_o the cause?  (degrade it to 13 and
     # 12 digits: if the deviation from the original grows with the truncation, it is.)
     if pending:
@@ -1092,6 +1171,8 @@ def build_cases(ctx):
     for nm in names:
         if nm in tab and os.path.exists(os.path.join(EXDIR, nm)) and os.path.exists(tab[nm]):
             cases.append(Case("example:" + nm, tab[nm], "", example_text(nm), "example"))
+    for cid, body in CORPUS:
+        cases.append(Case(cid, os.path.join(vlib.DB, "phreeqc.dat"), DEFS, body, "gen", {"corpus": True}))
     ng = ctx.n(40, 400)
     for k in range(ng):
         defs, body, meta = gen_case(ctx.rng, k)
